@@ -1165,6 +1165,15 @@ def judge(inp):
   family = inp.get("family", "random")
   if family == "process_error":
     return judge_process(inp)
+  if family == "twins":
+    # a SEQUENCE of validate calls in one process: the verdict on (value, schema) must not depend on what was validated before (a validator kept
+    # per schema under a key that identifies True with 1 and False with 0 - Python's equality, not JSON's - serves the wrong twin: C20_m14)
+    for k, st in enumerate(inp["steps"]):
+      r = judge(dict(family="twins-step", value=st["value"], schema=st["schema"]))
+      if r:
+        return dict(r, input=inp, signature=r["signature"].replace(":twins-step", ":twins"),
+                    what=f"call {k + 1} of {len(inp['steps'])} validate calls in one process (schemas that differ only in true / 1, false / 0): " + r["what"])
+    return None
   value, schema = copy.deepcopy(inp["value"]), copy.deepcopy(inp["schema"])
   exc, _ = run_validate(value, schema)
   def fail(sig, what, expected):
@@ -1301,6 +1310,36 @@ def fam_random(rng):
   if isinstance(schema, dict) and "dependentRequired" not in repr(schema) and rng.random() < 0.2:
     schema["$schema"] = rng.choice([DRAFT7, DRAFT2019, DRAFT2020])
   return dict(family="random", value=value, schema=schema)
+
+
+def _swap_bool_int(v):
+  if isinstance(v, bool):
+    return int(v)
+  if isinstance(v, (int, float)) and v in (0, 1):
+    return bool(v)
+  if isinstance(v, list):
+    return [_swap_bool_int(x) for x in v]
+  if isinstance(v, dict):
+    return {k: _swap_bool_int(x) for k, x in v.items()}
+  return v
+
+
+def fam_twins(rng):
+  pool = [0, 1, 1.0, 0.0, True, False, "a", None, [1], [True], {"k": 1}, {"k": False}, 2]
+  members = rng.sample(pool, rng.randint(1, 4))
+  if not any(isinstance(m, (bool, int, float, list, dict)) and m is not None and m != 2 for m in members):
+    members.append(rng.choice([0, 1, True, False]))
+  a = {"const": members[0]} if rng.random() < 0.3 else {"enum": members}
+  b = _swap_bool_int(a)
+  wrap = rng.choice(["root", "root", "prop", "items"])
+  def sch(x):
+    return x if wrap == "root" else ({"type": "object", "properties": {"p": x}} if wrap == "prop" else {"type": "array", "items": x})
+  def val(v):
+    return v if wrap == "root" else ({"p": v} if wrap == "prop" else [v])
+  probes = [True, False, 0, 1, 1.0, [1], [True], {"k": 1}, {"k": False}, "a"]
+  order = [a, b] if rng.random() < 0.5 else [b, a]
+  steps = [dict(schema=sch(copy.deepcopy(x)), value=val(copy.deepcopy(v))) for x in order for v in rng.sample(probes, 5)]
+  return dict(family="twins", steps=steps)
 
 
 def fam_deep(rng):
@@ -1494,6 +1533,10 @@ def search(ctx, hints, broken):
       break
   for _ in range(3):
     run(fam_huge(rng))
+  for _ in range(ctx.n(40, 400)):
+    run(fam_twins(rng))
+    if len(fails) >= 3:
+      break
   for _ in range(ctx.n(300, 5000)):
     run(fam_draft3(rng))
     if len(fails) >= 12:
